@@ -156,6 +156,14 @@ def cells(thorough):
     for n in range(1, (4 if thorough else 3) + 1):
         for seq in itertools.product(ops, repeat=n):
             out.append(dict(base, logins=[list(o) for o in seq], sr=False, wants=(False, False, False)))
+    # ... and with requests whose NameIDPolicy leaves the format open ('open'): the IdP's configured format applies
+    # (persistent in this policy), and it is the same identifier an explicit request for that format gets
+    ops = [(u, f) for u in ('alice', 'bob') for f in ('open', 'persistent', 'transient')]
+    for n in range(1, (4 if thorough else 3) + 1):
+        for seq in itertools.product(ops, repeat=n):
+            if not any(f == 'open' for _u, f in seq):
+                continue
+            out.append(dict(base, logins=[list(o) for o in seq], sr=False, wants=(False, False, False), policy='per-sp-partial'))
     return out
 
 
@@ -172,7 +180,8 @@ def evaluate_logins(c):
         rid = 'req%d' % (step + 1)
         try:
             resp = idp.create_authn_response({'givenName': [user]}, rid, ACS[POST], SP_X, userid=user,
-                                             name_id_policy=samlp.NameIDPolicy(format=NF[fmt], allow_create='true'),
+                                             name_id_policy=(samlp.NameIDPolicy(format=NF[fmt], allow_create='true') if fmt != 'open'
+                                                             else samlp.NameIDPolicy(allow_create='true')),
                                              authn={'class_ref': forge.PASSWORD}, sign_response=False, sign_assertion=False)
             info = idp.apply_binding(POST, str(resp), ACS[POST], 'relay-1', response=True)
             msg, _rs = transport(info, POST)
@@ -182,6 +191,8 @@ def evaluate_logins(c):
         if not obs['accept']:
             return {'ok': False, 'why': 'sp-rejected-conforming-response:%s' % obs.get('exc'), 'step': step}
         text, f = obs['identity']['name_id'][0], obs['identity']['name_id'][1]
+        if fmt == 'open':
+            fmt = 'persistent'          # what the policy of this world configures
         if f != NF[fmt]:
             return {'ok': False, 'why': 'name-id-format-differs-from-requested:%s' % f.rsplit(':', 1)[-1], 'step': step}
         from saml2_tophat import saml
